@@ -39,10 +39,18 @@ def strat1d(tier):
                     st.builds(lambda p: ("power", p), gen.f(0.5, 3.0)),
                     st.builds(lambda b: ("exp", b), st.one_of(gen.f(-4, -0.1), gen.f(0.1, 4))))
     mor = st.builds(lambda n, L, x0, lw: dict(kind="morph", n=n, length=L, x0=x0, law=lw[0], param=lw[1]), n, L, x0, law)
+    # morphings that do NOT map the interval onto itself (the faces are then the image of it), with end displacements from 1e-12 to 1e-1 of the length,
+    # also far from the origin (|x0| up to 1e4 lengths) where a displacement is tiny compared with the coordinates
+    sgn = st.sampled_from([1.0, -1.0])
+    small = st.builds(lambda s_, e: s_ * 10.0 ** e, sgn, gen.f(-12, -1))
+    law2 = st.one_of(st.builds(lambda e, d: ("affine", [e, d]), st.one_of(st.just(0.0), small), st.one_of(st.just(0.0), small)),
+                     st.builds(lambda b: ("wave", b), st.one_of(gen.f(-0.9, 0.9), small)))
+    far = st.one_of(x0, st.builds(lambda s_, e: s_ * 10.0 ** e, sgn, gen.f(0, 4)))
+    mor2 = st.builds(lambda n, L, k, lw: dict(kind="morph", n=n, length=L, x0=k * L if abs(k) > 10 else k, law=lw[0], param=lw[1]), n, L, far, law2)
     data = st.lists(gen.sfloat(-3, 1), min_size=1, max_size=7)
     # the same meshes in other length units (nanometres to megametres; the origin is expressed in the same unit)
     unit = st.one_of(st.just(1.0), st.just(1.0), st.just(1.0), gen.logf(-6, 3))
-    return st.builds(lambda m, d, c, u: dict(mesh=(m if u == 1.0 else cases.scale_mesh(m, u)), data=d, const=c), st.one_of(uni, ref, ref, mor), data, gen.sfloat(-3, 2), unit)
+    return st.builds(lambda m, d, c, u: dict(mesh=(m if u == 1.0 else cases.scale_mesh(m, u)), data=d, const=c), st.one_of(uni, ref, ref, mor, mor2), data, gen.sfloat(-3, 2), unit)
 
 
 def strat2d(tier):
